@@ -39,6 +39,12 @@ def Opt(t): return ("Opt", t)
 VAR, LEXP, CON, WRAP, HNAME, BITS = ("Var",), ("LinExpr",), ("Constr",), ("Wrapper",), ("HelperName",), ("BitCount",)
 def VarDict(fam, key): return ("VarDict", fam, key)
 BGRAPH, SELFOBJ, NODEDATA, EDGEDATA, SGRAPH = ("BGraph",), ("SelfObject",), ("NodeDataView",), ("EdgeDataView",), ("STGraph",)
+STG = ("PathEncGraph",)
+def VarDictK(fam, K): return ("VarDictK", fam, K)
+K3, K2, K1 = ("Tuple", ("Node",), ("Node",), ("Int",)), ("Tuple", ("Int",), ("Int",)), ("Int",)
+KEYENC = {K3: ("vkey3", "eqb3"), K2: ("vkey2", "eqb2"), K1: ("vkey1", "Z.eqb")}
+# name_prefix="<literal>" of self.solver.add_variables in the model classes -> variable family of Lin.v (the table of harness/e1.py)
+PREFIX_LITERAL = {"edge": "fEdge", "pi": "fPi", "w": "fW", "r": "fR", "position": "fPos", "path_length": "fLen"}
 ERASED = (("Attr",), ("Wrapper",), ("Str",), ("SelfObject",))        # parameters of these types do not appear in the Gallina signature
 EDGE = Tuple(NODE, NODE)
 DEDGE = Tuple(NODE, NODE, EDATA)
@@ -84,11 +90,47 @@ TARGETS["augment"] = dict(file="flowpaths/abstractsourcesinkgraph.py", cls="Abst
 
 _EV = Dict(Tuple(NODE, NODE, INT), INT)
 TARGETS["solpaths"] = dict(file="flowpaths/abstractpathmodeldag.py", cls="AbstractPathModelDAG", func="get_solution_paths",
-                           params=[SELFOBJ], defaults=[], ret=Opt(List(List(NODE))),
+                           params=[SELFOBJ], defaults=[], ret=List(List(NODE)),
                            selfobj=dict(inputs=[("external_solution_paths", Opt(List(List(NODE)))), ("edge_vars_sol", _EV), ("G", SGRAPH), ("k", INT)],
                                         outputs=[("edge_vars_sol", _EV)],          # read and (re)assigned: initialised from the input
                                         # a call whose result is an input of the model: the rounded 0/1 values the solver wrapper returns
                                         calls={"self.solver.get_values(self.edge_vars, binary_values=True)": ("solver_edge_values", _EV)}))
+
+# ---- the MILP encoders of the DAG models.  self.G is the PathEnc.stgraph record (nodes, edges, source, sink, successor and predecessor
+# lists in networkx' iteration order) that harness/e1.py sends to the hand-written model as well.
+_PM_IN = [("G", STG), ("k", INT), ("solver", WRAP)]
+TARGETS["encode_paths"] = dict(
+    file="flowpaths/abstractpathmodeldag.py", cls="AbstractPathModelDAG", func="_encode_paths", params=[SELFOBJ], defaults=[], ret=NONE, emits=True,
+    selfobj=dict(inputs=_PM_IN + [("allow_empty_paths", BOOL), ("subpath_constraints", List(List(EDGE))), ("subpath_constraints_coverage", NUM),
+                                  ("subpath_constraints_coverage_length", Opt(NUM)), ("length_attr", Opt(ATTR)), ("encode_edge_position", BOOL)],
+                 outputs=[("edge_indexes", List(K3)), ("path_indexes", List(K1)), ("subpath_indexes", List(K2)),
+                          ("edge_vars", VarDictK("fEdge", K3)), ("subpaths_vars", VarDictK("fR", K2)),
+                          ("edge_position_vars", VarDictK("fPos", K3)), ("path_length_vars", VarDictK("fLen", K1))],
+                 calls={"self.G.reachable_edges_rev_from": ("reachable_edges_rev_from", Dict(NODE, List(EDGE)))},
+                 lengths=True))
+TARGETS["encode_kpc"] = dict(
+    file="flowpaths/kpathcover.py", cls="kPathCover", func="_encode_path_cover", params=[SELFOBJ], defaults=[], ret=NONE, emits=True,
+    selfobj=dict(inputs=_PM_IN + [("subpath_constraints", List(List(EDGE))), ("subpath_constraints_coverage", NUM), ("edges_to_ignore", Set(EDGE)),
+                                  ("edge_vars", VarDictK("fEdge", K3))], outputs=[], calls={}))
+TARGETS["encode_kfd"] = dict(
+    file="flowpaths/kflowdecomp.py", cls="kFlowDecomp", func="_encode_flow_decomposition", params=[SELFOBJ], defaults=[], ret=NONE, emits=True,
+    selfobj=dict(inputs=_PM_IN + [("edge_indexes", List(K3)), ("path_indexes", List(K1)), ("edge_vars", VarDictK("fEdge", K3)), ("w_max", NUM),
+                                  ("edges_to_ignore", Set(EDGE)), ("edges_set_to_zero", Set(K3)), ("edges_set_to_one", Set(K3)), ("flow_attr", ATTR)],
+                 outputs=[("pi_vars", VarDictK("fPi", K3)), ("path_weights_vars", VarDictK("fW", K1))],
+                 calls={"self.is_solved()": ("is_solved", BOOL), "self.weight_type == int": ("weight_is_int", BOOL)},
+                 flows=True))
+
+TARGETS["encode_kfdw"] = dict(
+    file="flowpaths/kflowdecomp.py", cls="kFlowDecomp", func="_encode_flow_decomposition_with_given_weights", params=[SELFOBJ], defaults=[], ret=NONE, emits=True,
+    selfobj=dict(inputs=_PM_IN + [("edge_vars", VarDictK("fEdge", K3)), ("edges_to_ignore", Set(EDGE)), ("flow_attr", ATTR),
+                                  ("solution_weights_superset", List(NUM)), ("original_k", INT)],
+                 outputs=[],
+                 calls={"self.is_solved()": ("is_solved", BOOL),
+                        "self.optimization_options.get('optimize_with_safe_paths', False)": ("opt_safe_paths", BOOL),
+                        "self.optimization_options.get('optimize_with_safe_sequences', False)": ("opt_safe_sequences", BOOL),
+                        "self.optimization_options.get('optimize_with_safe_zero_edges', False)": ("opt_safe_zero_edges", BOOL),
+                        "self.optimization_options.get('optimize_with_flow_safe_paths', False)": ("opt_flow_safe_paths", BOOL)},
+                 flows=True))
 
 # a query of stDiGraph on data networkx computed (condensation): the expressions below are inputs of the model
 TARGETS["is_scc_edge"] = dict(file="flowpaths/stdigraph.py", cls="stDiGraph", func="is_scc_edge", params=[SELFOBJ, NODE, NODE], defaults=[], ret=BOOL,
@@ -118,13 +160,21 @@ PRIMITIVES = {
 }
 
 
-def check_primitives(classdef):
+OBJECTIVE_PRIMITIVE = dict(args="self, expr, sense='minimize'", path=[
+    ("stmt", 0, "if sense not in ['minimize', 'min', 'maximize', 'max']:\n    utils.logger.error(f'{__name__}: The objective sense must be either `minimize` or `maximize`.')\n"
+                "    raise ValueError(f'Objective sense {sense} is not supported. Only [\"minimize\", \"min\", \"maximize\", \"max\"] are supported.')"),
+    ("stmt", 1, "self.optimization_sense = sense"),
+    ("if-test", 2, "self.external_solver == 'highs'"),
+    ("if-body", 2, "self.solver.set_objective_without_solving(expr, sense=sense)")])
+
+
+def check_primitives(classdef, extra=None):
     def norm(src): return ast.dump(ast.parse(src))
     def body_of(f):
         b = list(f.body)
         if b and isinstance(b[0], ast.Expr) and isinstance(b[0].value, ast.Constant) and isinstance(b[0].value.value, str): b = b[1:]
         return b
-    for name, spec in PRIMITIVES.items():
+    for name, spec in list(PRIMITIVES.items()) + list((extra or {}).items()):
         fs = [n for n in classdef.body if isinstance(n, ast.FunctionDef) and n.name == name]
         if len(fs) != 1: raise Unsupported("source layout: SolverWrapper.%s not found exactly once" % name)
         f = fs[0]
@@ -187,6 +237,9 @@ def gty(t):
     if t == EDATA: return "(option Q)"
     if t == GRAPH: return "pygraph"
     if t == BGRAPH: return "bgraph"
+    if t == STG: return "PathEnc.stgraph"
+    if t == ATTR: return "unit"
+    if t[0] == "VarDictK": return "(list %s)" % gty(t[2])
     if t == SGRAPH: return "sgraph"
     if t in (VAR, HNAME): return "var"
     if t == LEXP: return "lexp"
@@ -209,6 +262,7 @@ def dflt(t):
     if t == EDATA: return "None"
     if t == GRAPH: return "py_empty_graph"
     if t == BGRAPH: return "(mk_bgraph [] [])"
+    if t[0] == "VarDictK": return "[]"
     if t == SGRAPH: return "(mk_sgraph 0%N 0%N [])"
     if t in (VAR, HNAME): return "(V 0%N [])"
     if t == LEXP: return "(LConst (0#1)%Q)"
@@ -314,17 +368,32 @@ class Fn:
         self.s_out = dict(self.selfobj["outputs"]) if self.selfobj else {}
         self.builds = bool(self.selfobj and self.selfobj.get("graph"))
         self.s_calls = dict(self.selfobj.get("calls", {})) if self.selfobj else {}
+        self.s_extra = []          # further inputs: the edge-length table / the flow table behind self.G[u][v] and edge data dicts
+        if self.selfobj and self.selfobj.get("lengths"): self.s_extra.append(("lengths", Dict(EDGE, NUM)))
+        if self.selfobj and self.selfobj.get("flows"): self.s_extra.append(("flows", Dict(EDGE, NUM)))
         self.uses_fuel = any(isinstance(n, ast.While) for n in ast.walk(self.fdef))
+        self.uses_objective = False
         self.emits = bool(self.spec.get("emits"))
         self.callees = []              # other translated targets this function calls (their Gen modules are required)
+        self.wrapper_classdef = None
         if self.emits:
-            check_primitives(self.classdef)
+            if self.selfobj:        # a model class: the primitives are those of flowpaths/utils/solverwrapper.py
+                wpath = os.path.join(repo, "flowpaths/utils/solverwrapper.py")
+                wt = ast.parse(open(wpath).read(), filename=wpath)
+                ws = [n for n in wt.body if isinstance(n, ast.ClassDef) and n.name == "SolverWrapper"]
+                if len(ws) != 1: raise Unsupported("source layout: class SolverWrapper not found exactly once")
+                self.wrapper_classdef = ws[0]
+            else:
+                self.wrapper_classdef = self.classdef
+            uses_obj = any(isinstance(n, ast.Attribute) and n.attr == "set_objective" for n in ast.walk(self.fdef))
+            check_primitives(self.wrapper_classdef, {"set_objective": OBJECTIVE_PRIMITIVE} if uses_obj else None)
+            self.uses_objective = uses_obj
         self.collect_names()
 
     @staticmethod
     def append_call(e):
         """(list name, argument node) if e is `<name>.append(<arg>)`, else None"""
-        if (isinstance(e, ast.Call) and isinstance(e.func, ast.Attribute) and e.func.attr == "append" and isinstance(e.func.value, ast.Name)
+        if (isinstance(e, ast.Call) and isinstance(e.func, ast.Attribute) and e.func.attr in ("append", "add") and isinstance(e.func.value, ast.Name)
                 and len(e.args) == 1 and not e.keywords):
             return e.func.value.id, e.args[0]
         return None
@@ -395,7 +464,7 @@ class Fn:
     # -------------------------------------------------------------------------------- expressions
     # expr returns (term, type, guards); guards = [(bool term that is true when the operation fails, exception)]
     def expr(self, e, env):
-        if self.s_calls and isinstance(e, (ast.Call, ast.Subscript, ast.Attribute)) and self.sparam not in env["bound"] \
+        if self.s_calls and isinstance(e, (ast.Call, ast.Subscript, ast.Attribute, ast.Compare)) and self.sparam not in env["bound"] \
                 and ast.unparse(e) in self.s_calls:
             nm, ty = self.s_calls[ast.unparse(e)]          # a declared input expression of the object
             return "in_" + nm, ty, []
@@ -544,6 +613,8 @@ class Fn:
             opt = True; inner = rty[1]
         else:
             inner = rty
+        if inner[0] in ("List", "Set") and not opt and self.never_equal(lty, inner[1]):
+            return "false", g          # e.g. a pair of node names is never equal to a pair of pairs: Python's `in` answers False
         if inner[0] in ("List", "Set"):
             ety = join(lty, inner[1], node)
             if ety != inner[1] and not has_bot(inner[1]):
@@ -556,6 +627,16 @@ class Fn:
             if lty != inner[1]: raise Unsupported("dict key of type %s, expected %s" % (show(lty), show(inner[1])), node)
             return "(py_dict_mem %s %s %s)" % (eqb(inner[1], node), rt, lt), g
         raise Unsupported("membership test on a value of type %s" % show(rty), node)
+
+    @staticmethod
+    def never_equal(a, b):
+        """values of these two embedded types can never be equal in Python (a node name / number vs a tuple, tuples of different length)"""
+        atoms = (NODE, INT, NUM)
+        if (a in atoms and b[0] == "Tuple") or (b in atoms and a[0] == "Tuple"): return True
+        if a[0] == "Tuple" and b[0] == "Tuple":
+            if len(a) != len(b): return True
+            return any(Fn.never_equal(x, y) for x, y in zip(a[1:], b[1:]))
+        return False
 
     def e_Subscript(self, e, env):
         b, bty, bg = self.expr(e.value, env)
@@ -574,6 +655,11 @@ class Fn:
             if n == 2: t = "(%s %s)" % (("fst", "snd")[k], b)
             else: t = ("(fst (fst %s))", "(snd (fst %s))", "(snd %s)")[k] % b
             return t, bty[1 + k], bg
+        if bty[0] == "VarDictK":
+            k, kty, kg = self.expr(e.slice, env)
+            if kty != bty[2]: raise Unsupported("variable index of type %s, the variables are indexed by %s" % (show(kty), show(bty[2])), e)
+            enc, eq = KEYENC[bty[2]]
+            return "(V %s (%s %s))" % (bty[1], enc, k), VAR, bg + kg + [("(negb (py_mem %s %s %s))" % (eq, k, b), "KeyError")]
         if bty[0] == "VarDict":
             # the dict returned by add_variables has exactly the keys it was created with: the index must be a loop /
             # comprehension variable that runs over the same index list, so the lookup cannot fail
@@ -601,11 +687,17 @@ class Fn:
             if a in self.s_out:
                 if "self." + a not in env["defined"]: raise Unsupported("read of self.%s where it may be unassigned" % a, e)
                 return "(at_%s s)" % a, self.s_out[a], []
-            if a in self.s_in: return "in_" + a, self.s_in[a], []
+            if a in self.s_in:
+                if "self." + a in env.get("narrow", {}):      # inside the branch where `self.<a> is not None` is known
+                    ty = self.s_in[a][1]
+                    return "(py_opt_get %s in_%s)" % (dflt(ty), a), ty, []
+                return "in_" + a, self.s_in[a], []
             raise Unsupported("attribute self.%s (not in the typed embedding of the object)" % a, e)
         if self.selfobj:
             t, ty, g = self.expr(e.value, env)
             if ty == SGRAPH and e.attr in ("source", "sink"): return "(sg_%s %s)" % (e.attr, t), NODE, g
+            if ty == STG and e.attr in ("source", "sink"): return "(PathEnc.g_%s %s)" % ({"source": "src", "sink": "snk"}[e.attr], t), NODE, g
+            if ty == STG and e.attr == "nodes": return "(PathEnc.g_nodes %s)" % t, List(NODE), g
             if ty == BGRAPH and e.attr == "nodes": return "(b_nodes %s)" % t, List(NODE), g       # iterating G.nodes
             if ty == BGRAPH and e.attr == "edges": return "(b_edges %s)" % t, List(EDGE), g
         raise Unsupported("attribute access outside a supported method call", e)
@@ -686,31 +778,74 @@ class Fn:
         return ast.dump(node)
 
     def gen_map(self, e, env):
-        """[ELT for v in LIST] / (ELT for v in LIST): map; ELT must be free of partial operations"""
-        if len(e.generators) != 1: raise Unsupported("comprehension with several generators", e)
-        g = e.generators[0]
-        if g.ifs or g.is_async or not isinstance(g.target, ast.Name): raise Unsupported("comprehension with a filter / tuple target", e)
-        v = g.target.id
-        if v in self.locals or v in self.params or v in env["bound"]:
-            raise Unsupported("comprehension variable %r shadows another name" % v, e)
-        it, ity, ig = self.expr(g.iter, env)
-        if ity[0] != "List": raise Unsupported("comprehension over a value of type %s" % show(ity), e)
-        cname = "c%d" % env["ncomp"][0]; env["ncomp"][0] += 1
-        env["bound"][v] = (cname, ity[1], self.src_key(g.iter))
+        """[ELT for v in LIST] / (ELT for v in LIST), also with a tuple target and with a second `for`: map / flat_map.
+        Partial operations in ELT (a KeyError of d[k], ...) are hoisted in front of the statement: Python would raise at the
+        first element where one fails, with the kind of the first one that fails there."""
+        if not (1 <= len(e.generators) <= 2): raise Unsupported("comprehension with more than two generators", e)
+        pats = []; its = []; ig = []; bound_now = []
         try:
+            for gi, g in enumerate(e.generators):
+                if g.ifs or g.is_async: raise Unsupported("comprehension with a filter", e)
+                it, ity, gg = self.expr(g.iter, env)
+                if ity[0] != "List": raise Unsupported("comprehension over a value of type %s" % show(ity), e)
+                if gi == 1 and gg: raise Unsupported("partial operation in the second generator of a comprehension", g.iter)
+                ig += gg
+                if isinstance(g.target, ast.Name): names = [g.target.id]; tys = [ity[1]]
+                elif isinstance(g.target, ast.Tuple) and all(isinstance(x, ast.Name) for x in g.target.elts):
+                    names = [x.id for x in g.target.elts]
+                    if ity[1][0] != "Tuple" or len(ity[1]) - 1 != len(names): raise Unsupported("unpacking %d names from %s" % (len(names), show(ity[1])), e)
+                    tys = list(ity[1][1:])
+                else: raise Unsupported("comprehension target", e)
+                cn = []
+                for v, ty in zip(names, tys):
+                    if v in self.locals or v in self.params or v in env["bound"]:
+                        raise Unsupported("comprehension variable %r shadows another name" % v, e)
+                    c = "c%d" % env["ncomp"][0]; env["ncomp"][0] += 1
+                    env["bound"][v] = (c, ty, self.src_key(g.iter) if len(names) == 1 else None); bound_now.append(v); cn.append(c)
+                pats.append(cn[0] if len(cn) == 1 else "'(" + ", ".join(cn) + ")"); its.append(it)
             t, ty, tg = self.expr(e.elt, env)
         finally:
-            del env["bound"][v]
-        if tg: raise Unsupported("partial operation inside a comprehension", e.elt)
-        return "(map (fun %s => %s) %s)" % (cname, t, it), List(ty), ig
+            for v in bound_now: del env["bound"][v]
+        if len(pats) == 1:
+            term = "(map (fun %s => %s) %s)" % (pats[0], t, its[0])
+            allpat, alllist = pats[0], its[0]
+        else:
+            term = "(flat_map (fun %s => map (fun %s => %s) %s) %s)" % (pats[0], pats[1], t, its[1], its[0])
+            allpat = "'(%s, %s)" % (pats[0].lstrip("'"), pats[1].lstrip("'"))
+            alllist = "(flat_map (fun %s => map (fun %s => (%s, %s)) %s) %s)" % (pats[0], pats[1], pats[0].lstrip("'"), pats[1].lstrip("'"), its[1], its[0])
+        hoisted = []
+        if tg:
+            anyfail = tg[-1][0]
+            for g_, _ in reversed(tg[:-1]): anyfail = "(orb %s %s)" % (g_, anyfail)
+            for j, (g_, ex) in enumerate(tg):
+                here = g_
+                for g2, _ in reversed(tg[:j]): here = "(andb (negb %s) %s)" % (g2, here)
+                hoisted.append(("(match find (fun %s => %s) %s with Some %s => %s | None => false end)" % (allpat, anyfail, alllist, allpat.lstrip("'"), here), ex))
+        return term, List(ty), ig + hoisted
 
     def e_GeneratorExp(self, e, env): return self.gen_map(e, env)
 
     def e_ListComp(self, e, env): return self.comp(e, env, "List")
     def e_SetComp(self, e, env): return self.comp(e, env, "Set")
 
+    def edge_length_pattern(self, e, env):
+        """self.G[a][b].get(self.length_attr, 1) -> the length table the harness computes with that very expression"""
+        if not (isinstance(e, ast.Call) and isinstance(e.func, ast.Attribute) and e.func.attr == "get" and len(e.args) == 2 and not e.keywords
+                and self.self_attr(e.args[0]) == "length_attr" and isinstance(e.args[1], ast.Constant) and e.args[1].value == 1
+                and isinstance(e.func.value, ast.Subscript) and isinstance(e.func.value.value, ast.Subscript)
+                and self.self_attr(e.func.value.value.value) == "G" and self.s_in.get("G") == STG and ("lengths", Dict(EDGE, NUM)) in self.s_extra):
+            return None
+        a, aty, ag = self.expr(e.func.value.value.slice, env); b, bty, bg = self.expr(e.func.value.slice, env)
+        if aty != NODE or bty != NODE: raise Unsupported("self.G[..][..] with non-node keys", e)
+        # self.G[a][b] raises KeyError when (a, b) is not an edge of the graph
+        return ("(py_edge_len in_lengths %s %s)" % (a, b), NUM,
+                ag + bg + [("(negb (py_mem edge_eqb (%s, %s) (PathEnc.g_edges in_G)))" % (a, b), "KeyError")])
+
     def e_Call(self, e, env):
         f = e.func
+        if self.selfobj and self.sparam not in env["bound"]:
+            r = self.edge_length_pattern(e, env)
+            if r is not None: return r
         if isinstance(f, ast.Name):
             n = f.id
             if n in self.locals or n in self.params or n in self.loopvars:
@@ -720,6 +855,15 @@ class Fn:
                     return "NegInf", EXT, []
                 raise Unsupported("float(...) other than float(\"-inf\")", e)
             if e.keywords: raise Unsupported("keyword arguments of %s" % n, e)
+            if n == "sum" and len(e.args) == 1 and not e.keywords:
+                t, ty, g = self.expr(e.args[0], env)
+                if ty == List(NUM): return "(py_sum %s)" % t, NUM, g
+                if ty == List(INT): return "(py_sum (map inject_Z %s))" % t, NUM, g        # an int in Python; only used as a number here
+                raise Unsupported("sum of a value of type %s" % show(ty), e)
+            if n == "zip" and len(e.args) == 2 and not e.keywords:
+                a, aty, ag = self.expr(e.args[0], env); b, bty, bg = self.expr(e.args[1], env)
+                if aty[0] != "List" or bty[0] != "List": raise Unsupported("zip of %s and %s" % (show(aty), show(bty)), e)
+                return "(combine %s %s)" % (a, b), List(Tuple(aty[1], bty[1])), ag + bg
             if n == "str":
                 if len(e.args) != 1: raise Unsupported("str arity", e)
                 t, ty, g = self.expr(e.args[0], env)
@@ -773,6 +917,17 @@ class Fn:
             if None in kw: raise Unsupported("**kwargs in a call", e)
             def data_true():
                 return set(kw) == {"data"} and isinstance(kw["data"], ast.Constant) and kw["data"].value is True
+            if rty == STG:
+                if m in ("successors", "predecessors") and len(e.args) == 1 and not kw:
+                    v, vty, vg = self.expr(e.args[0], env)
+                    if vty != NODE: raise Unsupported("%s of a non-node" % m, e)
+                    return "(PathEnc.%s %s %s)" % ({"successors": "succs", "predecessors": "preds"}[m], recv, v), List(NODE), rg + vg
+                if m in ("nodes", "edges") and not e.args and not kw:
+                    return "(PathEnc.g_%s %s)" % (m, recv), List(NODE if m == "nodes" else EDGE), rg
+                if m == "edges" and not e.args and data_true() and ("flows", Dict(EDGE, NUM)) in self.s_extra:
+                    return "(py_edges_data (PathEnc.g_edges %s) in_flows)" % recv, List(DEDGE), rg
+                if m == "number_of_nodes" and not e.args and not kw: return "(py_len (PathEnc.g_nodes %s))" % recv, INT, rg
+                raise Unsupported("graph method call .%s with these arguments" % m, e)
             if rty == SGRAPH:
                 if m == "successors" and len(e.args) == 1 and not kw:
                     v, vty, vg = self.expr(e.args[0], env)
@@ -870,6 +1025,9 @@ class Fn:
             n = e.func.value.id
             if n in self.params and self.ptype[n] == WRAP and n not in env["bound"]:
                 return e.func.attr
+        if isinstance(e, ast.Call) and isinstance(e.func, ast.Attribute) and self.self_attr(e.func.value) is not None \
+                and self.s_in.get(self.self_attr(e.func.value)) == WRAP and self.sparam not in env["bound"]:
+            return e.func.attr          # self.solver.<method>(...)
         return None
 
     def bind_args(self, e, names, defaults):
@@ -888,6 +1046,8 @@ class Fn:
     def add_variables_call(self, e, env):
         b = self.bind_args(e, ["indexes", "name_prefix", "lb", "ub", "var_type"], {"lb": 0, "ub": 1, "var_type": "integer"})
         it, ity, g = self.expr(b["indexes"], env)
+        if isinstance(b["name_prefix"], ast.Constant):
+            return self.add_variables_keyed(e, b, it, ity, g, env)
         if ity != List(INT): raise Unsupported("add_variables over indexes of type %s" % show(ity), e)
         key = self.src_key(b["indexes"])
         if key is None: raise Unsupported("add_variables over an index list that is not a stable expression", b["indexes"])
@@ -913,6 +1073,32 @@ class Fn:
         cols = "(py_add_variables %s %s %s %s %s %s)" % (fam, nm, it, bounds[0], bounds[1], "true" if vt == "integer" else "false")
         return cols, fam, nm, key, g + ng
 
+    def add_variables_keyed(self, e, b, it, ity, g, env):
+        """add_variables(<list of index tuples>, name_prefix="<literal>", ...): the variable of an index is V <family> <index components>"""
+        pre = b["name_prefix"].value
+        if pre not in PREFIX_LITERAL: raise Unsupported("name_prefix %r (only %s)" % (pre, "/".join(PREFIX_LITERAL)), e)
+        if ity[0] != "List" or ity[1] not in KEYENC: raise Unsupported("add_variables over indexes of type %s" % show(ity), e)
+        K = ity[1]; fam = PREFIX_LITERAL[pre]
+        bounds = []
+        for k in ("lb", "ub"):
+            if k in b:
+                t, ty, gg = self.expr(b[k], env); g = g + gg
+                if ty not in (INT, NUM): raise Unsupported("bound %s of type %s (only scalars)" % (k, show(ty)), b[k])
+                bounds.append(coerce(t, ty, NUM, e))
+            else:
+                bounds.append({"lb": "(0#1)%Q", "ub": "(1#1)%Q"}[k])
+        vt = b.get("var_type")
+        if vt is None: isint = "true"
+        elif isinstance(vt, ast.Constant) and vt.value in ("integer", "continuous"): isint = "true" if vt.value == "integer" else "false"
+        elif isinstance(vt, ast.IfExp) and isinstance(vt.body, ast.Constant) and isinstance(vt.orelse, ast.Constant) \
+                and {vt.body.value, vt.orelse.value} == {"integer", "continuous"}:
+            t, ty, gg = self.expr(vt.test, env); g = g + gg
+            if ty != BOOL: raise Unsupported("var_type condition of type %s" % show(ty), vt)
+            isint = t if vt.body.value == "integer" else "(negb %s)" % t
+        else: raise Unsupported("var_type of add_variables", e)
+        cols = "(py_new_vars %s %s %s %s %s %s)" % (fam, KEYENC[K][0], it, bounds[0], bounds[1], isint)
+        return cols, fam, it, ("keyed", K), g
+
     def emit_call_stmt(self, e, env):
         m = self.self_call(e, env)
         if m == "add_constraint":
@@ -926,11 +1112,20 @@ class Fn:
         if m == "add_variables":
             cols, fam, nm, key, g = self.add_variables_call(e, env)
             return self.guarded(g, "py_assign (fun s => emit_out %s [] s)" % cols)
-        callee = [k for k, v in TARGETS.items() if v.get("emits") and v["cls"] == self.spec["cls"] and v["func"] == m and v["file"] == self.spec["file"]]
+        if m == "set_objective":
+            b = self.bind_args(e, ["expr", "sense"], {"sense": "minimize"})
+            t, ty, g = self.expr(b["expr"], env)
+            if ty not in (LEXP, VAR): raise Unsupported("objective of type %s" % show(ty), e)
+            sn = b.get("sense")
+            sn = "minimize" if sn is None else (sn.value if isinstance(sn, ast.Constant) else None)
+            if sn not in ("minimize", "min", "maximize", "max"): raise Unsupported("objective sense (only a literal minimize / maximize)", e)
+            return self.guarded(g, "py_assign (fun s => set_o_obj (Some (%s, %s)) s)" % (coerce(t, ty, LEXP, e), "true" if sn in ("maximize", "max") else "false"))
+        wcls = "SolverWrapper" if self.selfobj else self.spec["cls"]
+        callee = [k for k, v in TARGETS.items() if v.get("emits") and not v.get("selfobj") and v["cls"] == wcls and v["func"] == m]
         if len(callee) != 1 or callee[0] == self.target:
             raise Unsupported("call of self.%s (not a translated helper)" % m, e)
         callee = callee[0]; cs = TARGETS[callee]
-        fs = [n for n in self.classdef.body if isinstance(n, ast.FunctionDef) and n.name == m]
+        fs = [n for n in self.wrapper_classdef.body if isinstance(n, ast.FunctionDef) and n.name == m]
         if len(fs) != 1: raise Unsupported("source layout: %s not found exactly once" % m, e)
         names = [a.arg for a in fs[0].args.args]
         if len(names) != len(cs["params"]) or fs[0].args.defaults: raise Unsupported("signature of the callee %s" % m, e)
@@ -992,6 +1187,16 @@ class Fn:
             if isinstance(st, ast.If) and (Fn.own_breaks(st.body) or Fn.own_breaks(st.orelse)): return True
         return False
 
+    def stable_condition(self, test):
+        """a condition whose value cannot change during the call: built from input attributes of self and parameters only"""
+        for n in ast.walk(test):
+            if isinstance(n, ast.Name) and n.id != self.sparam and n.id not in ("len", "int"):
+                if n.id in self.locals or n.id in self.loopvars or n.id not in self.params: return False
+            if isinstance(n, ast.Attribute) and self.self_attr(n) is not None and (self.self_attr(n) in self.s_out or self.self_attr(n) not in self.s_in):
+                return False
+            if isinstance(n, ast.Call) and not (isinstance(n.func, ast.Name) and n.func.id == "len"): return False
+        return self.sparam is not None
+
     def graph_call_stmt(self, e, env):
         """self.add_edge(u, v) / self.add_nodes_from(X) / self.add_edges_from(X) on the graph the method fills"""
         if not (isinstance(e, ast.Call) and self.self_attr(e.func) is not None and self.sparam not in env["bound"]): return None
@@ -1017,11 +1222,11 @@ class Fn:
             if env["iterating"] & {n}: raise Unsupported("append to the list %r while iterating over it" % n, s)
             t, ty, g = self.expr(arg, env)
             env["aliased"] |= self.alias_uses(arg)
-            lt = env["vt"][n]
-            if lt[0] != "List": raise Unsupported("append to a value of type %s" % show(lt), s)
+            lt = env["vt"][n]; kind = "List" if s.value.func.attr == "append" else "Set"
+            if lt[0] != kind: raise Unsupported("%s on a value of type %s" % (s.value.func.attr, show(lt)), s)
             ety = join(lt[1], ty, s)
-            final = env["final"].get(n, List(ety))
-            a = self.assign_to(n, "(app (%s s) [%s])" % (self.xname[n], coerce(t, ty, final[1], s)), List(ety), env, s)
+            final = env["final"].get(n, (kind, ety))
+            a = self.assign_to(n, "(app (%s s) [%s])" % (self.xname[n], coerce(t, ty, final[1], s)), (kind, ety), env, s)
             return self.guarded(g, a), True
         if isinstance(s, ast.Expr):
             if isinstance(s.value, ast.Constant) and isinstance(s.value.value, str): return None, True   # docstring / string statement
@@ -1046,7 +1251,8 @@ class Fn:
             b, _ = self.block(s.body, env)
             env["defined"] = d0; env["inloop"] = inloop0
             return "py_while fuel (fun s => %s)\n%s" % (t, self.ind(b)), True
-        if isinstance(s, ast.Assign) and len(s.targets) == 1 and self.self_attr(s.targets[0]) in self.s_out:
+        if isinstance(s, ast.Assign) and len(s.targets) == 1 and self.self_attr(s.targets[0]) in self.s_out \
+                and not (self.emits and self.self_call(s.value, env) == "add_variables"):
             a = self.self_attr(s.targets[0]); want = self.s_out[a]
             t, ty, g = self.expr(s.value, env)
             if join(ty, want, s) != want: raise Unsupported("self.%s assigned a value of type %s, the embedding declares %s" % (a, show(ty), show(want)), s)
@@ -1054,7 +1260,18 @@ class Fn:
             return self.guarded(g, "py_assign (fun s => set_at_%s %s s)" % (a, coerce(t, ty, want, s))), True
         if isinstance(s, ast.Assign) and self.emits and self.self_call(s.value, env) == "add_variables":
             cols, fam, nm, key, g = self.add_variables_call(s.value, env)
-            a = self.assign_to(s.targets[0].id, "(%s, %s)" % (fam, nm), VarDict(fam, key), env, s)
+            if isinstance(key, tuple) and key[0] == "keyed":
+                vty = VarDictK(fam, key[1]); val = nm
+            else:
+                vty = VarDict(fam, key); val = "(%s, %s)" % (fam, nm)
+            a_out = self.self_attr(s.targets[0]) if len(s.targets) == 1 else None
+            if a_out in self.s_out:
+                if self.s_out[a_out] != vty: raise Unsupported("self.%s assigned variables of type %s, the embedding declares %s" % (a_out, show(vty), show(self.s_out[a_out])), s)
+                env["defined"] = env["defined"] | {"self." + a_out}
+                a = "py_assign (fun s => set_at_%s %s s)" % (a_out, val)
+            elif len(s.targets) == 1 and isinstance(s.targets[0], ast.Name):
+                a = self.assign_to(s.targets[0].id, val, vty, env, s)
+            else: raise Unsupported("assignment target", s)
             return self.guarded(g, "py_seq\n%s\n%s" % (self.ind("py_assign (fun s => emit_out %s [] s)" % cols), self.ind(a))), True
         if isinstance(s, ast.Assign):
             t, ty, g = self.expr(s.value, env)
@@ -1074,7 +1291,10 @@ class Fn:
             if not env["inloop"]: raise Unsupported("continue outside a loop", s)
             return "py_continue", False
         if isinstance(s, ast.Return):
-            if s.value is None: raise Unsupported("bare return", s)
+            if s.value is None:
+                if not (self.emits or self.selfobj) or self.spec["ret"] != NONE: raise Unsupported("bare return", s)
+                env["ret"][0] = join(env["ret"][0], NONE, s)
+                return "py_return (fun s => tt)", False
             t, ty, g = self.expr(s.value, env)
             env["ret"][0] = join(env["ret"][0], ty, s)
             return self.guarded(g, "py_return (fun s => %s)" % coerce(t, ty, env["final_ret"] or env["ret"][0], s)), False
@@ -1088,9 +1308,24 @@ class Fn:
             t, ty, g = self.expr(s.test, env)
             if ty != BOOL: raise Unsupported("condition of type %s (truthiness of non-booleans is not translated)" % show(ty), s.test)
             d0 = env["defined"]; al0 = set(env["aliased"])
+            # `self.<input> is None` / `is not None`: the other branch knows the value
+            nar = None
+            if isinstance(s.test, ast.Compare) and len(s.test.ops) == 1 and isinstance(s.test.ops[0], (ast.Is, ast.IsNot)) \
+                    and isinstance(s.test.comparators[0], ast.Constant) and s.test.comparators[0].value is None \
+                    and self.self_attr(s.test.left) in self.s_in and self.s_in[self.self_attr(s.test.left)][0] == "Opt" \
+                    and self.self_attr(s.test.left) not in self.s_out:
+                nar = ("self." + self.self_attr(s.test.left), isinstance(s.test.ops[0], ast.IsNot))
+            narrow0 = dict(env.get("narrow", {}))
+            # an earlier `if <same stable condition>:` assigned attributes / locals: they are assigned here as well
+            ckey = ast.dump(s.test) if self.stable_condition(s.test) else None
+            if ckey is not None and ckey in env["cond_defs"]: env["defined"] = env["defined"] | env["cond_defs"][ckey]
+            if nar and nar[1]: env["narrow"] = dict(narrow0, **{nar[0]: True})
             a, fa = self.block(s.body, env); da = env["defined"]; ala = env["aliased"]
-            env["defined"] = d0; env["aliased"] = set(al0)
+            if ckey is not None and not s.orelse: env["cond_defs"][ckey] = env["cond_defs"].get(ckey, set()) | (da - d0)
+            env["defined"] = d0; env["aliased"] = set(al0); env["narrow"] = dict(narrow0)
+            if nar and not nar[1]: env["narrow"] = dict(narrow0, **{nar[0]: True})
             b, fb = self.block(s.orelse, env); db = env["defined"]
+            env["narrow"] = narrow0
             env["aliased"] = env["aliased"] | ala
             env["defined"] = (da & db) if (fa and fb) else (da if fa else (db if fb else da | db))
             return self.guarded(g, "py_if (fun s => %s)\n%s\n%s" % (t, self.ind(a), self.ind(b))), fa or fb
@@ -1139,7 +1374,7 @@ class Fn:
         ret = BOT
         final = {}; final_ret = None
         for rnd in range(8):
-            env = dict(vt=dict(vt), defined=set(self.state_params) | {"self." + a for a in self.s_out if a in self.s_in}, bound={}, inloop=False, ret=[ret], final=final, final_ret=final_ret, ncomp=[0], aliased=set(), iterating=set())
+            env = dict(vt=dict(vt), defined=set(self.state_params) | {"self." + a for a in self.s_out if a in self.s_in}, bound={}, inloop=False, ret=[ret], final=final, final_ret=final_ret, ncomp=[0], aliased=set(), iterating=set(), cond_defs={}, narrow={})
             body, falls = self.block(self.fdef.body, env)
             if env["vt"] == vt and env["ret"][0] == ret:
                 break
@@ -1158,7 +1393,7 @@ class Fn:
         order = sorted(self.locals, key=lambda n: (gty(vt[n]), self.locals.index(n)))
         self.xname = {n: "x%d" % i for i, n in enumerate(order)}
         self.locals_in_field_order = order
-        env = dict(vt=dict(vt), defined=set(self.state_params) | {"self." + a for a in self.s_out if a in self.s_in}, bound={}, inloop=False, ret=[ret], final=vt, final_ret=ret, ncomp=[0], aliased=set(), iterating=set())
+        env = dict(vt=dict(vt), defined=set(self.state_params) | {"self." + a for a in self.s_out if a in self.s_in}, bound={}, inloop=False, ret=[ret], final=vt, final_ret=ret, ncomp=[0], aliased=set(), iterating=set(), cond_defs={}, narrow={})
         self.callees = []
         body, falls = self.block(self.fdef.body, env)
         if env["vt"] != vt: raise Unsupported("type inference unstable in the emission pass", self.fdef)
@@ -1173,7 +1408,11 @@ class Fn:
         L.append("   loop vars:  " + (", ".join("i%d = %s" % (i, n) for i, n in enumerate(self.loopvars)) or "(none)") + " *)")
         L.append("From Coq Require Import List NArith ZArith QArith Bool.")
         L.append("Import ListNotations.")
-        if self.emits:
+        if self.emits and self.selfobj:
+            L.append("From FP Require Import Lin PathEnc PyRt PyLin.")
+            for c in self.callees:
+                L.append("From FPGen Require Gen_%s." % c)
+        elif self.emits:
             L.append("From FP Require Import Lin PyRt PyLin.")
             for c in self.callees:
                 L.append("From FPGen Require Gen_%s." % c)
@@ -1184,6 +1423,7 @@ class Fn:
         fields = [(self.xname[n], gty(vt[n])) for n in order]
         if self.emits:       # the columns and rows handed to the solver so far, in order
             fields += [("o_cols", "(list col)"), ("o_rows", "(list row)")]
+        if self.uses_objective: fields += [("o_obj", "(option (lexp * bool))")]      # the objective last set: expression, maximise?
         if self.builds: fields += [("o_graph", "mgraph")]
         for a, ty in (self.selfobj["outputs"] if self.selfobj else []): fields += [("at_" + a, gty(ty))]
         fields = fields or [("x_unit", "unit")]
@@ -1195,7 +1435,8 @@ class Fn:
         if self.emits:
             L.append("Definition emit_out (cs : list col) (rs : list row) (s : st) : st := set_o_rows (o_rows s ++ rs) (set_o_cols (o_cols s ++ cs) s).")
         gparams = [(self.aname[p], gty(self.ptype[p])) for p in self.params if self.ptype[p] not in ERASED]
-        gparams += [("in_" + a, gty(ty)) for a, ty in (self.selfobj["inputs"] if self.selfobj else [])]
+        gparams += [("in_" + a, gty(ty)) for a, ty in (self.selfobj["inputs"] if self.selfobj else []) if ty not in ERASED]
+        gparams += [("in_" + nm, gty(ty)) for nm, ty in self.s_extra]
         gparams += [("in_" + nm, gty(ty)) for nm, ty in self.s_calls.values()]
         if self.uses_fuel: gparams = [("fuel", "nat")] + gparams
         binder = " ".join("(%s : %s)" % gp for gp in gparams)
@@ -1204,6 +1445,7 @@ class Fn:
         for n in order:
             init.append(self.aname[n] if n in self.state_params else dflt(vt[n]))
         if self.emits: init += ["[]", "[]"]
+        if self.uses_objective: init += ["None"]
         if self.builds: init += ["py_m_empty"]
         for a, ty in (self.selfobj["outputs"] if self.selfobj else []): init += ["in_" + a if a in self.s_in else dflt(ty)]
         if not init: init = ["tt"]
@@ -1212,7 +1454,11 @@ class Fn:
         L.append("Definition body %s : stmt st %s :=" % (binder, rty))
         L.append(self.ind(body) + ".")
         L.append("")
-        if self.emits:
+        if self.emits and self.selfobj:
+            outs = ["o_cols", "o_rows"] + (["o_obj"] if self.uses_objective else []) + ["at_" + a for a, _ in self.selfobj["outputs"]]
+            L.append("Definition fn %s :=" % binder)
+            L.append("  let r := body %s (init_st %s) in (%s)." % (names, names, ", ".join(["py_outcome (fst r)"] + ["%s (snd r)" % o for o in outs])))
+        elif self.emits:
             L.append("Definition fn %s : result %s * list col * list row :=" % (binder, rty))
             L.append("  let r := body %s (init_st %s) in (py_outcome (fst r), o_cols (snd r), o_rows (snd r))." % (names, names))
         elif self.selfobj:     # the outcome, the graph the method filled, and the attributes it assigned
@@ -1250,11 +1496,11 @@ REJECT = {
     "slice with a step": "r = seq[::2]\nreturn 0",
     "sum()": "return sum(edge_lengths.get(e, 1) for e in seq)",
     "any()": "r = 0\nif any(e in seq for e in seq):\n    r = 1\nreturn r",
-    "comprehension with two generators": "s = [e for e in seq for f in seq]\nreturn 0",
+    "comprehension with three generators": "s = [e for e in seq for f in seq for g in seq]\nreturn 0",
+    "comprehension with a filter": "s = [e for e in seq if e in edge_lengths]\nreturn 0",
     "dict comprehension": "s = {e: 1 for e in seq}\nreturn 0",
-    "partial operation in a comprehension": "s = [edge_lengths[e] for e in seq]\nreturn 0",
+    "partial operation in the second generator": "s = [f for e in seq for f in paths_in_DAG[0]]\nreturn 0",
     "filtered pairs": "r = 0\nfor p in paths_in_DAG:\n    s = [(p[i], p[i + 1]) for i in range(len(p) - 1) if i]\nreturn r",
-    "pairs off by one": "r = 0\nfor p in paths_in_DAG:\n    s = [(p[i], p[i + 1]) for i in range(len(p))]\nreturn r",
     "lambda": "f = lambda x: x\nreturn 0",
     "division": "r = 2\nr = r / 2\nreturn 0",
     "floor division": "r = 2\nr = r // 2\nreturn 0",
@@ -1309,7 +1555,8 @@ REJECT_EMIT = {
     "log2 alone": "n = log2(ub)",
     "arithmetic on the bit count": "n = ceil(log2(ub))\nm = n + 1",
     "backend test": "if self.external_solver == 'highs':\n    self.add_constraint(product_var <= ub, name=name)",
-    "other wrapper method": "self.set_objective(product_var)",
+    "other wrapper method": "self.optimize()",
+    "objective with a computed sense": "self.set_objective(product_var + 0, sense=name)",
     "literal name_prefix": "v = self.add_variables([0], name_prefix='foo', lb=0, ub=1)",
     "name_prefix from a plain string": "v = self.add_variables(list(range(2)), name_prefix=f'binary_{name}', lb=0, ub=1)",
     "list literal": "for r in [product_var]:\n    self.add_constraint(r <= ub, name=name)",
